@@ -63,12 +63,13 @@ func meta(a *world.Actor) vtypes.MsgMetadata {
 }
 
 type env struct {
-	w      *world.World
-	actors []*world.Actor
-	denoms []string // all denoms of interest (mint/burn targets)
-	subs   []string
-	base   map[string]*big.Int // initial supply per denom
-	baseB  map[string]map[string]*big.Int
+	w          *world.World
+	actors     []*world.Actor
+	denoms     []string // all denoms of interest (mint/burn targets)
+	subs       []string
+	base       map[string]*big.Int // initial supply per denom
+	baseB      map[string]map[string]*big.Int
+	roundTrips int
 }
 
 func (e *env) bal(g *ghost, a, d string) *big.Int {
@@ -122,7 +123,7 @@ func run(r *report.Run, shard, nshards int, replayFile string) {
 			e.baseB[a.Name][d] = w.Balance(w.Root, a.Addr, d)
 		}
 	}
-	r.Rule = "BFS over Create/Mint/Burn/ChangeAdmin/SetDenomMetadata by X,Y,Z (signed txs) and by X as a contract through the tokenfactory wasm bindings (SetMetadata with a base equal to / different from the authorised denom, Mint to itself or a third party, ChangeAdmin) on factory/X/a, factory/Y/a, factory/X/a/b, ugrain, a 2-part factory string and an ibc denom; every transition is a signed tx through the real ante chain and tokenfactory msg server; a state is distinct by (admins, supplies, balances, metadata)"
+	r.Rule = "BFS over Create/Mint/Burn/ChangeAdmin/SetDenomMetadata by X,Y,Z (signed txs) and by X as a contract through the tokenfactory wasm bindings (SetMetadata with a base equal to / different from the authorised denom, Mint to itself or a third party, ChangeAdmin) on factory/X/a, factory/Y/a, factory/X/a/b, ugrain, a 2-part factory string and an ibc denom; every transition is a signed tx through the real ante chain and tokenfactory msg server; a state is distinct by (admins, supplies, balances, metadata); in every state the module's genesis export is imported into a fork of the pristine chain and must reproduce every denom's admin and re-export identically"
 	r.Assumptions = []string{
 		"tx atomicity re-implemented as in baseapp.runTx (ante cache, msg cache)",
 		"amount alphabet {5 mint, 3 burn}; larger amounts exercise the same code path (sdk.Int arithmetic in x/bank)",
@@ -166,8 +167,10 @@ func run(r *report.Run, shard, nshards int, replayFile string) {
 	}
 	res := explore.Run(r, spec)
 	r.Extra["depth_completed"] = float64(res.DepthCompleted)
+	r.Extra["genesis_round_trips_in_shard_0"] = float64(e.roundTrips)
 	if shard != 0 {
 		delete(r.Extra, "depth_completed")
+		delete(r.Extra, "genesis_round_trips_in_shard_0")
 	}
 }
 
@@ -204,9 +207,47 @@ func (e *env) invariant(n *explore.Node) *explore.Fail {
 			return explore.Failf("admin:"+kind(d), "admin of %s is %q, reference %q (exists=%v)", d, md.Admin, adm, exists)
 		}
 	}
+	// genesis round trip: exporting the module state and importing it into the pristine chain (a fork
+	// of the initial state, no denoms) must reproduce who controls what
+	if f := e.genesisRoundTrip(n, g); f != nil {
+		return f
+	}
 	if _, found := w.App.BankKeeper.GetDenomMetaData(n.Ctx, "factory/"+e.actors[1].Addr.String()+"/new"); found {
 		return explore.Failf("metadata-planted", "bank metadata exists for factory/Y/new, which nobody created")
 	}
+	return nil
+}
+
+func (e *env) genesisRoundTrip(n *explore.Node, g *ghost) (fail *explore.Fail) {
+	w := e.w
+	k := w.App.TokenFactoryKeeper
+	defer func() {
+		if p := recover(); p != nil {
+			fail = explore.Failf("genesis-import-panics", "importing the exported tokenfactory genesis panics: %v", p)
+		}
+	}()
+	gs := k.ExportGenesis(n.Ctx)
+	if len(gs.FactoryDenoms) != len(g.Admin) {
+		return explore.Failf("genesis-export-denoms", "exported genesis lists %d denoms, the factory created %d", len(gs.FactoryDenoms), len(g.Admin))
+	}
+	fresh := world.Fork(w.Root)
+	k.InitGenesis(fresh, *gs)
+	for d, adm := range g.Admin {
+		md, err := k.GetAuthorityMetadata(fresh, d)
+		if err != nil {
+			return explore.Failf("genesis-admin-read", "after import GetAuthorityMetadata(%s): %v", d, err)
+		}
+		if md.Admin != adm {
+			return explore.Failf("genesis-admin", "after genesis export/import the admin of %s is %q, before it was %q", d, md.Admin, adm)
+		}
+	}
+	again := k.ExportGenesis(fresh)
+	a, _ := json.Marshal(gs)
+	b, _ := json.Marshal(again)
+	if string(a) != string(b) {
+		return explore.Failf("genesis-roundtrip", "export after import differs from the exported genesis:\n %s\n %s", a, b)
+	}
+	e.roundTrips++
 	return nil
 }
 
